@@ -114,6 +114,15 @@ class Repo:
                 raise SourceError(f"live import of fickling.{m} failed: {info['error']}")
         return d
 
+    def add_virtual_module(self, name, source):
+        """a lemma program: python source executed by the verifier over the contracts of the functions it calls (never run)"""
+        t = ast.parse(source)
+        self.trees[name] = t
+        self.src[name] = source
+        self.sha[name] = hashlib.sha256(source.encode()).hexdigest()
+        self.virtual = getattr(self, "virtual", set()) | {name}
+        self._index(name, t)
+
     # -- lookups --------------------------------------------------------------------------------------------------
     def mod_of_file(self, f):
         b = os.path.basename(f)
